@@ -6,6 +6,9 @@ namespace Holpy.C18.Arith
 section generic
 set_option linter.unusedSectionVars false
 variable {α : Type} [CommRing α] [LinearOrder α] [IsStrictOrderedRing α] [Div α]
+-- division by zero is zero (holpy: `real_divide x 0 = 0`; true of `ℚ` and of `Int.ediv`)
+variable (hd0 : ∀ x : α, x / (0 : α) = 0)
+include hd0
 
 /-- the value computed for a constant term is its value under every valuation -/
 theorem evalC_sound (ρ : Nat → α) (t : ATm α) (x : α) (h : evalC t = some x) : evalA ρ t = x := by
@@ -38,6 +41,11 @@ theorem evalC_sound (ρ : Nat → α) (t : ATm α) (x : α) (h : evalC t = some 
     simp [evalA, iha u hu, ihb v hv]
   | div a b iha ihb =>
     simp only [evalC] at h
+    split at h
+    · rename_i h10
+      obtain ⟨rfl, rfl⟩ := h10
+      simp only [Option.some.injEq] at h; subst h
+      simp [evalA, hd0]
     split at h <;> try contradiction
     rename_i u v hu hv
     split at h <;> try contradiction
@@ -56,8 +64,8 @@ theorem compSimplify_sound (ρ : Nat → α) (c : Cmp) (t1 t2 : ATm α) (rhs : C
     split at hb
     · split at hb
       · rename_i n1 n2 h1 h2
-        have e1 := evalC_sound ρ t1 n1 h1
-        have e2 := evalC_sound ρ t2 n2 h2
+        have e1 := evalC_sound hd0 ρ t1 n1 h1
+        have e2 := evalC_sound hd0 ρ t2 n2 h2
         rw [e1, e2]
         split at hb <;> try (simp at hb)
         · split at hb <;> simp at hb <;> simp [cmpHolds, rhsHolds, hb]
@@ -90,11 +98,11 @@ theorem minusSimplify_sound (ρ : Nat → α) (l r : ATm α) (h : minusSimplify 
   split at h
   · split at h <;> simp at h
     rename_i x y hx hy
-    rw [evalC_sound ρ l x hx, evalC_sound ρ r y hy, h]
+    rw [evalC_sound hd0 ρ l x hx, evalC_sound hd0 ρ r y hy, h]
   · simp only [Bool.or_eq_true] at h
     rcases h with h | h
-    · exact minusCompare_sound ρ l r h
-    · exact (minusCompare_sound ρ r l h).symm
+    · exact minusCompare_sound hd0 ρ l r h
+    · exact (minusCompare_sound hd0 ρ r l h).symm
 
 /-- verit_unary_minus_simplify: the accepted equation holds under every valuation -/
 theorem unaryMinusSimplify_sound (ρ : Nat → α) (l r : ATm α) (h : unaryMinusSimplify l r = true) :
@@ -109,7 +117,7 @@ theorem unaryMinusSimplify_sound (ρ : Nat → α) (l r : ATm α) (h : unaryMinu
       split at hb
       · exact hb
       · simp at hb
-    rw [evalC_sound ρ l a ha, evalC_sound ρ r b hb', hc]
+    rw [evalC_sound hd0 ρ l a ha, evalC_sound hd0 ρ r b hb', hc]
   unfold unaryMinusSimplify at h
   split at h
   case h_2 => simp at h
@@ -123,19 +131,61 @@ theorem unaryMinusSimplify_sound (ρ : Nat → α) (l r : ATm α) (h : unaryMinu
     · exact constCase _ _ h
     · simp at h
 
+/-- verit_eq_simplify: the accepted equivalence holds under every valuation (`neg`: the left side is `~(a = b)`) -/
+theorem eqSimplify_sound (ρ : Nat → α) (neg : Bool) (a b : ATm α) (rhs : ERhs) (h : eqSimplify neg a b rhs = true) :
+    (if neg then ¬ evalA ρ a = evalA ρ b else evalA ρ a = evalA ρ b) ↔ rhs = .tt := by
+  unfold eqSimplify at h
+  split at h
+  · rename_i hn
+    simp only [Bool.and_eq_true, decide_eq_true_eq] at h
+    obtain ⟨rfl, rfl⟩ := h
+    simp [hn]
+  · rename_i hn
+    simp only [Bool.or_eq_true, Bool.and_eq_true, decide_eq_true_eq] at h
+    rcases h with ⟨rfl, rfl⟩ | ⟨⟨⟨_, _⟩, rfl⟩, h4⟩
+    · simp [hn]
+    · split at h4 <;> simp at h4
+      rename_i x y hx hy
+      simp only [hn, Bool.false_eq_true, if_false]
+      rw [evalC_sound hd0 ρ a x hx, evalC_sound hd0 ρ b y hy]
+      simp [h4]
+
 end generic
 
+/-- verit_div_simplify over the rationals (division total, `x / 0 = 0`, as in holpy) -/
+theorem divSimplifyQ_sound (ρ : Nat → ℚ) (l r : ATm ℚ) (h : divSimplifyQ l r = true) : evalA ρ l = evalA ρ r := by
+  unfold divSimplifyQ divSimplify at h
+  split at h
+  case h_2 => simp at h
+  rename_i a b
+  simp only [Bool.or_eq_true, Bool.and_eq_true, decide_eq_true_eq] at h
+  rcases h with (⟨⟨⟨rfl, hc⟩, hv⟩, rfl⟩ | ⟨rfl, rfl⟩) | ⟨⟨_, _⟩, h3⟩
+  · split at hv <;> simp at hv
+    rename_i v hb
+    have := evalC_sound (fun x => div_zero x) ρ a v hb
+    simp only [evalA, this]
+    rw [div_self hv]; simp
+  · simp [evalA]
+  · split at h3 <;> simp at h3
+    rename_i x y hx hy
+    rw [evalC_sound (fun x => div_zero x) ρ _ x hx, evalC_sound (fun x => div_zero x) ρ r y hy, h3]
+
 theorem compSimplifyQ_sound (ρ : Nat → ℚ) (c t1 t2 rhs) (h : compSimplifyQ c t1 t2 rhs = true) :
-    cmpHolds c (evalA ρ t1) (evalA ρ t2) ↔ rhsHolds ρ rhs := compSimplify_sound ρ c t1 t2 rhs h
+    cmpHolds c (evalA ρ t1) (evalA ρ t2) ↔ rhsHolds ρ rhs := compSimplify_sound (by intro x; simp) ρ c t1 t2 rhs h
 theorem compSimplifyZ_sound (ρ : Nat → ℤ) (c t1 t2 rhs) (h : compSimplifyZ c t1 t2 rhs = true) :
-    cmpHolds c (evalA ρ t1) (evalA ρ t2) ↔ rhsHolds ρ rhs := compSimplify_sound ρ c t1 t2 rhs h
+    cmpHolds c (evalA ρ t1) (evalA ρ t2) ↔ rhsHolds ρ rhs := compSimplify_sound (by intro x; simp) ρ c t1 t2 rhs h
 theorem minusSimplifyQ_sound (ρ : Nat → ℚ) (l r) (h : minusSimplifyQ l r = true) : evalA ρ l = evalA ρ r :=
-  minusSimplify_sound ρ l r h
+  minusSimplify_sound (by intro x; simp) ρ l r h
 theorem minusSimplifyZ_sound (ρ : Nat → ℤ) (l r) (h : minusSimplifyZ l r = true) : evalA ρ l = evalA ρ r :=
-  minusSimplify_sound ρ l r h
+  minusSimplify_sound (by intro x; simp) ρ l r h
 theorem unaryMinusSimplifyQ_sound (ρ : Nat → ℚ) (l r) (h : unaryMinusSimplifyQ l r = true) : evalA ρ l = evalA ρ r :=
-  unaryMinusSimplify_sound ρ l r h
+  unaryMinusSimplify_sound (by intro x; simp) ρ l r h
 theorem unaryMinusSimplifyZ_sound (ρ : Nat → ℤ) (l r) (h : unaryMinusSimplifyZ l r = true) : evalA ρ l = evalA ρ r :=
-  unaryMinusSimplify_sound ρ l r h
+  unaryMinusSimplify_sound (by intro x; simp) ρ l r h
+
+theorem eqSimplifyQ_sound (ρ : Nat → ℚ) (neg a b rhs) (h : eqSimplifyQ neg a b rhs = true) :
+    (if neg then ¬ evalA ρ a = evalA ρ b else evalA ρ a = evalA ρ b) ↔ rhs = .tt := eqSimplify_sound (by intro x; simp) ρ neg a b rhs h
+theorem eqSimplifyZ_sound (ρ : Nat → ℤ) (neg a b rhs) (h : eqSimplifyZ neg a b rhs = true) :
+    (if neg then ¬ evalA ρ a = evalA ρ b else evalA ρ a = evalA ρ b) ↔ rhs = .tt := eqSimplify_sound (by intro x; simp) ρ neg a b rhs h
 
 end Holpy.C18.Arith
